@@ -212,7 +212,67 @@ def judge_twin(chk, c, obs, dropped):
     chk.count("lifetime-twins/bystander-%s" % ("before", "between", "after")[c.info["pos"]])
 
 
+# (trait, educed traits, field type without the trait, hand-written partner impls the definition needs)
+LACKING = [
+    ("Debug", "Debug", "Opaque", ""),
+    ("Clone", "Clone", "Opaque", ""),
+    ("PartialEq", "PartialEq", "Opaque", ""),
+    ("Hash", "Hash", "f64", ""), ("Hash", "Hash", "(u8, f32)", ""), ("Hash", "Hash", "Opaque", ""),
+    ("Hash", "PartialEq, Hash", "f64", ""), ("Hash", "Hash", "[f32; 2]", ""),
+    ("PartialOrd", "PartialEq, PartialOrd", "OnlyEq", ""),
+    ("Ord", "PartialEq, Eq, PartialOrd, Ord", "f64", ""), ("Ord", "PartialEq, Eq, PartialOrd, Ord", "::core::option::Option<f32>", ""),
+    ("Default", "Default", "Opaque", ""), ("Default", "Default", "&'static mut u8", ""),
+    ("Copy", "Clone, Copy", "::std::string::String", ""),
+]
+
+
+def lacking_cases(seed):
+    """a compared / cloned / printed field whose (concrete) type lacks the trait: no impl may come into being — the
+    definition must be rejected by rustc's trait check like the std derive on it is"""
+    out = []
+    pre = "pub struct Opaque;\n#[derive(PartialEq)]\npub struct OnlyEq(pub u8);\n"
+    i = 0
+    for tr, educed, ty, _ in LACKING:
+        for shape in ("struct-first", "struct-last", "tuple", "enum-tuple", "enum-named"):
+            head = "#[derive(::educe::Educe)]\n#[educe(%s)]\n" % educed
+            if shape == "struct-first":
+                body = "pub struct Ty {\n    pub a: %s,\n    pub b: u8,\n}\n" % ty
+            elif shape == "struct-last":
+                body = "pub struct Ty {\n    pub a: u8,\n    pub b: u16,\n    pub c: %s,\n}\n" % ty
+            elif shape == "tuple":
+                body = "pub struct Ty(pub u8, pub %s);\n" % ty
+            elif shape == "enum-tuple":
+                body = "pub enum Ty {\n    %sA,\n    B(u8, %s),\n}\n" % ("#[educe(Default)]\n    " if tr == "Default" else "", ty)
+                if tr == "Default":
+                    body = "pub enum Ty {\n    A,\n    #[educe(Default)]\n    B(u8, %s),\n}\n" % ty
+            else:
+                body = "pub enum Ty {\n    A { x: u8 },\n    %sB { y: %s, z: u8 },\n}\n" % ("#[educe(Default)]\n    " if tr == "Default" else "", ty)
+            text = pre + head + body
+            c = BH.Case("n%d" % i, None, text, [], drive="", info={"lacking": True, "trait": tr, "ty": ty, "shape": shape})
+            c.module = lambda c=c: H.module(c.cid, c.text + "pub fn run() {}\n")
+            out.append(c)
+            i += 1
+    return out
+
+
+def judge_lacking(chk, c, dropped):
+    chk.evaluations += 1
+    ds = dropped.get(c.cid)
+    if not ds:
+        chk.violation("impl-without-trait|%s|%s" % (c.info["trait"], c.info["ty"]),
+                      "the field type `%s` does not implement %s, yet the derive compiles: an impl exists that the field "
+                      "types do not support\n%s" % (c.info["ty"], c.info["trait"], c.text), {"case.rs": c.module()})
+        return
+    if all(d.get("code") is None for d in ds):
+        # refused by educe itself instead of by the trait check: not what the property is about, but no impl either
+        chk.count("lacking/refused-by-educe")
+    chk.held(digest(c.text), True, 0)
+    chk.count("lacking/%s" % c.info["trait"])
+
+
 def judge(chk, c, obs, dropped, d2):
+    if c.info.get("lacking"):
+        return judge_lacking(chk, c, dropped)
     if c.info.get("twin"):
         return judge_twin(chk, c, obs, dropped)
     td = c.td
@@ -273,8 +333,8 @@ def main(tier, seed, scale=1.0):
             if c is not None:
                 cases.append(c)
         if done == 0:
-            cases += [twin_case(seed, j) for j in range(max(40, n // 12))]
-        d2 = B.run_inproc([(c.cid, c.text.replace("::educe::Educe", "Educe")) for c in cases if not c.info.get("twin")], items=True)
+            cases += [twin_case(seed, j) for j in range(max(40, n // 12))] + lacking_cases(seed)
+        d2 = B.run_inproc([(c.cid, c.text.replace("::educe::Educe", "Educe")) for c in cases if c.td is not None], items=True)
         obs, dropped, crashed, _, _ = BH.execute("c11", cases)
         for c in cases:
             judge(chk, c, obs, dropped, d2)
